@@ -28,10 +28,13 @@ Values == UNION {[1..n -> Chars] : n \in 1..MaxLen}
 Plain  == <<"x">>
 
 VARIABLES cred,      \* field -> value (sequence of chars); fields not in DOMAIN are not supplied
-          protect, op, hot, sent, refused, wire
-vars == <<cred, protect, op, hot, sent, refused, wire>>
+          protect, op, hot, sent, refused, wire,
+          prior      \* TRUE: the same helper context served another URL before, whose own (URL-scoped) setting switches
+                     \* the protection off; protect is the setting that applies to the URL at hand, and the
+                     \* context's past is not an argument of the refusal rule
+vars == <<cred, protect, op, hot, sent, refused, wire, prior>>
 
-Init == /\ protect \in BOOLEAN /\ op \in Ops
+Init == /\ protect \in BOOLEAN /\ op \in Ops /\ prior \in BOOLEAN /\ (prior => protect)
         /\ cred = [f \in {"protocol", "host"} |-> Plain]
         /\ hot = 0 /\ sent = FALSE /\ refused = FALSE /\ wire = <<>>
 
@@ -42,7 +45,7 @@ Put(f, v) ==
   /\ v # Plain
   /\ cred' = [g \in DOMAIN cred \cup {f} |-> IF g = f THEN v ELSE cred[g]]
   /\ hot' = hot + 1
-  /\ UNCHANGED <<protect, op, sent, refused, wire>>
+  /\ UNCHANGED <<protect, op, sent, refused, wire, prior>>
 
 Has(v, c) == \E i \in DOMAIN v : v[i] = c
 \* the property's refusal rule
@@ -58,7 +61,7 @@ Send ==
   /\ ~sent /\ sent' = TRUE
   /\ refused' = Refuse
   /\ wire' = IF Refuse THEN <<>> ELSE Wire
-  /\ UNCHANGED <<cred, protect, op, hot>>
+  /\ UNCHANGED <<cred, protect, op, hot, prior>>
 
 Next == (\E f \in Fields, v \in Values : Put(f, v)) \/ Send
 Spec == Init /\ [][Next]_vars
@@ -94,6 +97,6 @@ UnsafeWire == Cat(DOMAIN cred, <<>>)
 RefusalNecessary == (sent /\ refused /\ ~(\E f \in DOMAIN cred : protect /\ Has(cred[f], "CR") /\ ~Has(cred[f], "LF") /\ ~Has(cred[f], "NUL")))
                        => HelperLines(UnsafeWire) # Supplied
 
-Out == [cred |-> [f \in DOMAIN cred |-> cred[f]], fields |-> DOMAIN cred, protect |-> protect, op |-> op, refuse |-> refused]
+Out == [cred |-> [f \in DOMAIN cred |-> cred[f]], fields |-> DOMAIN cred, protect |-> protect, prior |-> prior, op |-> op, refuse |-> refused]
 EmitState == (Emit /\ sent) => CSVWrite("%1$s", <<ToJson(Out)>>, IOEnv.OUT)
 =============================================================================
